@@ -88,7 +88,7 @@ package jobcontroller
 //@   ensures [C12,C13] only-this-task: forall n string :: jobtasks.delReq[n] ==> (old(jobtasks.delReq[n]) || n == jobtasks.taskName(task))
 //@   ensures [C12] force-only-when-forced: forall n string :: jobtasks.forceReq[n] ==> (old(jobtasks.forceReq[n]) || (force && n == jobtasks.taskName(task)))
 //@   ensures [C12,C13] requested-unless-already-deleting: result == nil ==> jobtasks.delReq[jobtasks.taskName(task)]
-//@        || (!force && jobtasks.taskDeletionTs(task) != nil && !jobtasks.taskDeletionTs(task).Time.IsZero() && ns(jobtasks.taskDeletionTs(task).Time) < clock)
+//@        || (!force && jobtasks.taskDelSet(task) && jobtasks.taskDelNs(task) < clock)
 //@   ensures [C12,C13] requests-only-grow: forall n string :: old(jobtasks.delReq[n]) ==> jobtasks.delReq[n]
 
 // deleteTasks runs the closure above on every task concurrently (goroutines, WaitGroup, channel: outside the verified
@@ -100,13 +100,13 @@ package jobcontroller
 //@   ensures forall n string :: jobtasks.forceReq[n] ==> (old(jobtasks.forceReq[n]) || (force && (exists k int :: 0 <= k && k < len(task) && n == jobtasks.taskName(task[k]))))
 //@   ensures forall n string :: old(jobtasks.delReq[n]) ==> jobtasks.delReq[n]
 //@   ensures result == nil ==> (forall k int :: 0 <= k && k < len(task) ==> jobtasks.delReq[jobtasks.taskName(task[k])]
-//@        || (!force && jobtasks.taskDeletionTs(task[k]) != nil && !jobtasks.taskDeletionTs(task[k]).Time.IsZero() && ns(jobtasks.taskDeletionTs(task[k]).Time) < clock))
+//@        || (!force && jobtasks.taskDelSet(task[k]) && jobtasks.taskDelNs(task[k]) < clock))
 //@   ensures clock >= old(clock)
 
 // ---- kill -------------------------------------------------------------------------------------------------------------
 
-//@ pure unfinished(t jobtasks.Task) bool = jobtasks.taskRefOf(t).FinishTimestamp.IsZero()
-//@ pure notDeleting(t jobtasks.Task) bool = jobtasks.taskDeletionTs(t).IsZero()
+//@ pure unfinished(t jobtasks.Task) bool = !jobtasks.taskFinished(t)
+//@ pure notDeleting(t jobtasks.Task) bool = !jobtasks.taskDelSet(t)
 //@ pure inTasks(ts []jobtasks.Task, t jobtasks.Task) bool = exists j int :: 0 <= j && j < len(ts) && ts[j] == t
 
 //@ func isTaskFinished
@@ -130,8 +130,8 @@ package jobcontroller
 
 // ---- pending timeout -----------------------------------------------------------------------------------------------------
 
-//@ pure notRunning(t jobtasks.Task) bool = jobtasks.taskRefOf(t).RunningTimestamp.IsZero()
-//@ pure createdNs(t jobtasks.Task) Int = ns(jobtasks.taskRefOf(t).CreationTimestamp.Time)
+//@ pure notRunning(t jobtasks.Task) bool = !jobtasks.taskRunningSet(t)
+//@ pure createdNs(t jobtasks.Task) Int = jobtasks.taskCreatedNs(t)
 //@ pure pendingNs(rj *execution.Job, cfg *configv1alpha1.JobExecutionConfig) Int = job.pendingTimeoutSeconds(rj, cfg) * 1000000000
 //@ pure overdue(t jobtasks.Task, pt Int, now Int) bool = unfinished(t) && notRunning(t) && createdNs(t) + pt <= now
 
@@ -158,4 +158,25 @@ package jobcontroller
 //@        && (forall k int :: 0 <= k && k < len(rj.Status.Tasks) ==> result0.Status.Tasks[k].Name == rj.Status.Tasks[k].Name
 //@             && ((exists j int :: 0 <= j && j < len(tasks) && jobtasks.taskName(tasks[j]) == rj.Status.Tasks[k].Name && overdue(tasks[j], pendingNs(rj, cfg), old(clock)) && notDeleting(tasks[j]))
 //@                  ==> result0.Status.Tasks[k].DeletedStatus != nil && result0.Status.Tasks[k].DeletedStatus.Result == execution.TaskKilled && result0.Status.Tasks[k].DeletedStatus.Reason == "PendingTimeout"))
+//@   ensures [C12] cached-job-untouched: *rj == old(*rj)
+
+// ---- force deletion ---------------------------------------------------------------------------------------------------
+
+//@ pure forceNs(cfg *configv1alpha1.JobExecutionConfig) Int = (cfg.ForceDeleteTaskTimeoutSeconds != nil ? *cfg.ForceDeleteTaskTimeoutSeconds : 0) * 1000000000
+//@ pure stuck(t jobtasks.Task, timeout Int, now Int) bool = jobtasks.taskDelSet(t) && jobtasks.taskDelNs(t) + timeout <= now
+
+//@ func Reconciler.handleForceDeleteKillingTasks
+//@   tags C12
+//@   requires w != nil && rj != nil && cfg != nil && rj.Spec.Template != nil
+//@   modifies jobtasks.delReq, jobtasks.forceReq, clock, wakeN, wakeKey, wakeAfter
+//@   loop 1 invariant -1 <= rangeindex && rangeindex < len(tasks) && deletingNames != nil && clock >= old(clock)
+//@   loop 1 invariant forall k int :: 0 <= k && k < len(needDelete) ==> inTasks(tasks, needDelete[k]) && stuck(needDelete[k], timeout, clock)
+//@   loop 1 invariant forall j int :: 0 <= j && j <= rangeindex && stuck(tasks[j], timeout, old(clock)) ==> inTasks(needDelete, tasks[j])
+//@   loop 2 invariant -1 <= rangeindex
+//@   ensures [C12] disabled-or-forbidden-means-nothing: (forceNs(cfg) <= 0 || rj.Spec.Template.ForbidTaskForceDeletion) ==>
+//@        (forall n string :: (jobtasks.forceReq[n] ==> old(jobtasks.forceReq[n])) && (jobtasks.delReq[n] ==> old(jobtasks.delReq[n])))
+//@   ensures [C12] force-only-after-timeout: forall n string :: (jobtasks.forceReq[n] && !old(jobtasks.forceReq[n])) || (jobtasks.delReq[n] && !old(jobtasks.delReq[n])) ==>
+//@        (exists j int :: 0 <= j && j < len(tasks) && jobtasks.taskName(tasks[j]) == n && stuck(tasks[j], forceNs(cfg), clock))
+//@   ensures [C12] stuck-tasks-force-deleted: result1 == nil && forceNs(cfg) > 0 && !rj.Spec.Template.ForbidTaskForceDeletion ==>
+//@        (forall j int :: 0 <= j && j < len(tasks) && stuck(tasks[j], forceNs(cfg), old(clock)) ==> jobtasks.delReq[jobtasks.taskName(tasks[j])])
 //@   ensures [C12] cached-job-untouched: *rj == old(*rj)
